@@ -1,0 +1,52 @@
+//go:build verif
+
+// Contracts for package sim, read by /verif/govc. Comments only.
+
+package sim
+
+//@ spec func ssum(sp []int64, bf bitfield.BitField, n mathint) mathint
+//@ pred ssumDef(sp []int64, bf bitfield.BitField) = ssum(sp, bf, 0) == 0
+//@     && forall(k, 0, bfCount(bf), ssum(sp, bf, k+1) == ssum(sp, bf, k) + sp[bfBit(bf, k)], trigger(bfBit(bf, k)))
+
+//@ pred tableOK(pt *gpbft.PowerTable) = len(pt.ScaledPower) == len(pt.Entries) && len(pt.Entries) <= 4294967296
+//@     && 0 <= pt.ScaledTotal && pt.ScaledTotal <= 65535
+//@     && forall(i, 0, len(pt.ScaledPower), 0 <= pt.ScaledPower[i] && pt.ScaledPower[i] <= 65535)
+
+// A decision passes the simulator's oracle only if it is what C03 says a decision is.
+//@ func (*ECInstance).validateDecision
+//@   property C19
+//@   harness harness/sim_decision_test.go
+//@   requires tableOK(eci.PowerTable) && ssumDef(eci.PowerTable.ScaledPower, decision.Signers)
+//@   modifies auto
+//@   ensures[right_instance_step_round] result == nil ==> old(decision.Vote.Instance) == old(eci.Instance) && old(decision.Vote.Phase) == gpbft.DECIDE_PHASE && old(decision.Vote.Round) == 0
+//@   ensures[signers_in_table_with_power] result == nil ==> old(forall(k, 0, bfCount(decision.Signers),
+//@        bfBit(decision.Signers, k) < len(eci.PowerTable.Entries) && eci.PowerTable.ScaledPower[bfBit(decision.Signers, k)] > 0))
+//@   ensures[strong_quorum_of_scaled_power] result == nil ==>
+//@        old(3*ssum(eci.PowerTable.ScaledPower, decision.Signers, bfCount(decision.Signers)) >= 2*eci.PowerTable.ScaledTotal)
+//@   ensures[aggregate_verified] result == nil ==> res(VerifyAggregate, 1) == nil
+//@   iter 1
+//@     invariant justificationPower == ssum(eci.PowerTable.ScaledPower, decision.Signers, iter) && 0 <= justificationPower && justificationPower <= 65535*iter
+//@     invariant len(signers) == iter && (iter == 0 || elem(iter-1) >= iter-1) && iter <= len(eci.PowerTable.Entries)
+//@     invariant forall(j, 0, iter, signers[j] == elem(j) && elem(j) < len(eci.PowerTable.Entries) && eci.PowerTable.ScaledPower[elem(j)] > 0)
+//@   at VerifyAggregate 1
+//@     before[verifies_exactly_the_signers] len(signers) == bfCount(decision.Signers) && forall(j, 0, len(signers), signers[j] == bfBit(decision.Signers, j))
+
+//@ func (*ECInstance).NotifyDecision
+//@   property C19
+//@   harness harness/sim_decision_test.go
+//@   requires tableOK(eci.PowerTable) && ssumDef(eci.PowerTable.ScaledPower, decision.Signers)
+//@   modifies auto
+//@   ensures[invalid_decision_is_recorded_as_error] res(validateDecision, 1) != nil ==> len(eci.ec.errors) == old(len(eci.ec.errors)) + 1
+//@   ensures[errors_only_grow] len(eci.ec.errors) >= old(len(eci.ec.errors)) && eci.ec == old(eci.ec)
+
+//@ func (*simEC).NotifyDecision
+//@   property C19
+//@   requires forall(i, 0, len(ec.instances), tableOK(ec.instances[i].PowerTable) && ssumDef(ec.instances[i].PowerTable.ScaledPower, decision.Signers) && ec.instances[i].ec == ec)
+//@   modifies auto
+//@   ensures[unknown_instance_is_recorded_as_error] old(len(ec.instances)) <= old(decision.Vote.Instance) ==> len(ec.errors) == old(len(ec.errors)) + 1
+//@   ensures[errors_only_grow] len(ec.errors) >= old(len(ec.errors))
+
+//@ func (*simEC).Err
+//@   property C19
+//@   pure
+//@   ensures[reports_recorded_errors] (result != nil) == (len(ec.errors) > 0)
